@@ -18,16 +18,7 @@ def tfield(base, idx):
     return lambda t: isinstance(t, tuple) and t[0] == "field" and t[2] is None and t[3] == str(idx) and base(t[1])
 
 
-def run(ctx):
-    ctx.decided = ("verify-before-release: every path of aggregate_custom to Ok crosses the success edge of the group "
-                   "key's verification of the very signature object that is returned, for the package's message "
-                   "(detect_cheater can never return Ok, so its continuation is dead); blame wiring: culprits are "
-                   "collected only from the failing share's own InvalidSignatureShare, produced for the loop's "
-                   "current (identifier, share, verifying share of that identifier); the scan runs over the whole "
-                   "ordered map, stops early only for FirstCheater; share check names its identifier parameter.")
-    ctx.undecided = ("that a failing share check coincides with 'differs from the honest share' and that cancelling "
-                     "errors yield a valid signature (algebra, decided only as kernel agreement under C01/C18).")
-    ctx.floor = 10
+def verify_before_release(ctx):
     P = ctx.prog
     det = ctx.anchor(CORE + "detect_cheater")
     agg = ctx.anchor(CORE + "aggregate_custom")
@@ -73,6 +64,25 @@ def run(ctx):
             ctx.check(good, "PROV", agg.key, "detect_cheater-arguments",
                       "detect_cheater is not called with (post-hook public key package, post-hook shares, the "
                       "caller's detection mode): got %s" % ", ".join(fmt(x) for x in a), loc_of(agg, bb))
+    return det
+
+
+def run(ctx):
+    ctx.decided = ("verify-before-release: every path of aggregate_custom to Ok crosses the success edge of the group "
+                   "key's verification of the very signature object that is returned, for the package's message "
+                   "(detect_cheater can never return Ok, so its continuation is dead); blame wiring: culprits are "
+                   "collected only from the failing share's own InvalidSignatureShare, produced for the loop's "
+                   "current (identifier, share, verifying share of that identifier); the scan runs over the whole "
+                   "ordered map, stops early only for FirstCheater; share check names its identifier parameter.")
+    ctx.undecided = ("that a failing share check coincides with 'differs from the honest share' and that cancelling "
+                     "errors yield a valid signature (algebra, decided only as kernel agreement under C01/C18).")
+    ctx.floor = 10
+    P = ctx.prog
+    det = verify_before_release(ctx)
+    if not ctx.core_only:
+        # blame under re-randomization: the package handed to the core aggregation shifts every verifying share
+        from .c17 import randomized_public_package
+        randomized_public_package(ctx)
     if det:
         v = FnView.get(P, det)
         item = next_item(arg(4))
